@@ -305,7 +305,7 @@ Proof.
         destruct excl; unfold qinv, call_consumers in *; cbn;
         destruct Hq as (A & B & C & D); rewrite ?D; cbn; repeat split; auto.
   - (* MCancel *)
-    destruct (find_consumer ch tag); [|exact H]. cbn [fst]. same_queues. apply QI_consumer_stop. exact H.
+    destruct (find_consumer ch tag); [|exact H]. cbn [fst]. repeat same_queues. apply QI_consumer_stop. exact H.
   - (* MGet *)
     destruct (queue_found s q) as [qu|] eqn:Ef; [|exact H].
     apply queue_found_get in Ef. pose proof (allq_get _ _ _ _ H Ef) as Hq.
